@@ -4,7 +4,9 @@
 #define VERIF_VMLINUX_H
 #include <stdbool.h>
 #include <stddef.h>
+#ifndef VERIF_BPF_TARGET
 #include <string.h>
+#endif
 #include <linux/types.h>
 #include <linux/bpf.h>
 #include <linux/if_ether.h>
